@@ -120,6 +120,9 @@ func (c *conn) Read(p []byte) (int, error) {
 			n = (remain + 1) / 2
 		case "bytes":
 			n = 1
+			if len(c.wire)-c.bodyStart > 8192 {
+				n = 1 + c.rng.Intn(64) // single-byte reads of a large body cost too many steps
+			}
 		case "random":
 			switch c.rng.Intn(4) {
 			case 0:
